@@ -529,23 +529,43 @@ Z_TAIL = 4
 
 
 def z_compress(b, *a, **kw):
-    """zlib.compress as an invertible framing: magic + payload + 4 check bytes (an uninterpreted
-    function of the payload, modelled as zeros): decompress(compress(b)) == b, and data that was
-    not produced by compress is rejected with zlib.error."""
+    """zlib.compress as an invertible, self-delimiting framing: magic + 4-byte payload length + payload + 4 check bytes
+    (an uninterpreted function of the payload, modelled as zeros): decompress(compress(b)) == b, data that was not
+    produced by compress is rejected with zlib.error, and - like zlib - bytes after the end of the stream are ignored."""
     if not isinstance(b, (SBytes, bytes, bytearray)):
         raise TypeError("a bytes-like object is required")
-    return SBytes(Z_MAGIC) + (b if isinstance(b, SBytes) else SBytes(b)) + SBytes(b"\0" * Z_TAIL)
+    b = b if isinstance(b, SBytes) else SBytes(b)
+    return SBytes(Z_MAGIC) + SBytes(len(b).to_bytes(4, "little")) + b + SBytes(b"\0" * Z_TAIL)
 
 
 def z_decompress(b, *a, **kw):
     b = b if isinstance(b, SBytes) else SBytes(b)
-    if len(b) < len(Z_MAGIC) + Z_TAIL:
+    if len(b) < len(Z_MAGIC) + 4 + Z_TAIL:
         raise real_zlib.error("Error -5 while decompressing data: incomplete or truncated stream")
     ok = (b[:2] == Z_MAGIC)
     if not bool(ok):
         raise real_zlib.error("Error -3 while decompressing data: incorrect header check")
-    tail_ok = (b[len(b) - Z_TAIL:] == b"\0" * Z_TAIL)
+    lb = b[2:6]
+    if lb.is_concrete():
+        n = int.from_bytes(lb.concrete(), "little")
+    else:
+        from .core import cur
+        import z3
+        term = z3.Concat(*[x if z3.is_bv(x) else z3.BitVecVal(x, 8) for x in reversed(_byte_terms(lb))])
+        n = cur().concretize(z3.simplify(term))
+    if 6 + n + Z_TAIL > len(b):
+        raise real_zlib.error("Error -5 while decompressing data: incomplete or truncated stream")
+    tail_ok = (b[6 + n:6 + n + Z_TAIL] == b"\0" * Z_TAIL)
     if not bool(tail_ok):
         raise real_zlib.error("Error -3 while decompressing data: incorrect data check")
-    out = b[2:len(b) - Z_TAIL]
+    out = b[6:6 + n]
     return out.concrete() if out.is_concrete() else SBytes(out)
+
+
+def _byte_terms(sb):
+    """8-bit terms of the bytes of an SBytes (un-split parts are expanded by indexing)"""
+    out = []
+    for i in range(len(sb)):
+        x = sb[i]
+        out.append(x.e if hasattr(x, "e") else x)
+    return out
